@@ -637,7 +637,7 @@ impl FileSystem for Vfs {
     fn id_remap(&self, ctx: &mut Context) -> Result<()> {
         // Without an inode there is no way to identify the target mount, so
         // fall back to the global id_mapping.
-        self.remap_ctx_ids(ctx, self.id_mapping)
+        self.remap_ctx_ids(ctx, self.global_id_mapping())
     }
 
     #[inline]
